@@ -21,11 +21,18 @@ import (
 	"github.com/pdok/texel/zzverif/vsrt"
 )
 
+type selCase struct {
+	send bool
+	obj  uintptr
+}
+
 type op struct {
-	kind vsrt.Kind
-	obj  uintptr // channel / waitgroup identity
-	n    int     // wg delta, or number of alternatives of a choice
-	tag  string
+	kind       vsrt.Kind
+	obj        uintptr // channel / waitgroup identity
+	n          int     // wg delta, or number of alternatives of a choice
+	tag        string
+	sel        []selCase // select statement: its communication clauses
+	hasDefault bool
 }
 
 type G struct {
@@ -53,8 +60,10 @@ type wgModel struct {
 }
 
 type transition struct {
-	a, b int // goroutine ids; b = -1 if single
-	alt  int // alternative index for choices
+	a, b int  // goroutine ids; b = -1 if single
+	alt  int  // value handed to a when it is woken (choice alternative / select case; -1 = default)
+	altB int  // value handed to b
+	dev  bool // a non-default alternative of the same goroutine (map order)
 	desc string
 	cost int
 }
@@ -90,6 +99,8 @@ type Exec struct {
 }
 
 type abortExec struct{}
+
+const abortSignal = -1 << 30
 
 var cur *Exec
 
@@ -186,7 +197,7 @@ func (x *Exec) park(g *G, o op) int {
 	x.signalQuietLocked()
 	x.mu.Unlock()
 	v := <-g.wake
-	if v < 0 {
+	if v == abortSignal {
 		panic(abortExec{})
 	}
 	return v
@@ -272,6 +283,19 @@ func orderHook(site string, n int) []int {
 	return ps[alt]
 }
 
+func selectHook(hasDefault bool, cases []vsrt.SelCase) int {
+	x := cur
+	g := x.me()
+	o := op{kind: vsrt.KSelect, hasDefault: hasDefault}
+	x.mu.Lock()
+	for _, c := range cases {
+		x.chanOf(c.Ch)
+		o.sel = append(o.sel, selCase{send: c.Send, obj: reflect.ValueOf(c.Ch).Pointer()})
+	}
+	x.mu.Unlock()
+	return x.park(g, o)
+}
+
 func goHook(name string, f func()) {
 	x := cur
 	parent := x.me()
@@ -325,7 +349,39 @@ func (x *Exec) enabled() []transition {
 			ts = append(ts, transition{a: g.ID, b: -1, desc: fmt.Sprintf("%s:yield(%s)", g.Name, o.tag)})
 		case vsrt.KChoice:
 			for j := 0; j < o.n; j++ {
-				ts = append(ts, transition{a: g.ID, b: -1, alt: j, desc: fmt.Sprintf("%s:order(%s)=%d", g.Name, o.tag, j)})
+				ts = append(ts, transition{a: g.ID, b: -1, alt: j, dev: j > 0, desc: fmt.Sprintf("%s:order(%s)=%d", g.Name, o.tag, j)})
+			}
+		case vsrt.KSelect:
+			n0 := len(ts)
+			for i, sc := range o.sel {
+				c := x.chans[sc.obj]
+				if sc.send {
+					switch {
+					case c.closed:
+						ts = append(ts, transition{a: g.ID, b: -1, alt: i, desc: fmt.Sprintf("%s:select-send-on-closed(ch%d)", g.Name, c.id)})
+					case c.len < c.cap:
+						ts = append(ts, transition{a: g.ID, b: -1, alt: i, desc: fmt.Sprintf("%s:select-send-buffered(ch%d)", g.Name, c.id)})
+					default:
+						for _, r := range x.gs {
+							if !r.Done && r.parked && r.ID != g.ID && r.pending.kind == vsrt.KRecv && r.pending.obj == sc.obj && c.len == 0 {
+								ts = append(ts, transition{a: g.ID, b: r.ID, alt: i, desc: fmt.Sprintf("%s=select=>%s:ch%d", g.Name, r.Name, c.id)})
+							}
+						}
+					}
+				} else {
+					if c.len > 0 || c.closed {
+						ts = append(ts, transition{a: g.ID, b: -1, alt: i, desc: fmt.Sprintf("%s:select-recv(ch%d,closed=%v)", g.Name, c.id, c.closed)})
+						continue
+					}
+					for _, sdr := range x.gs {
+						if !sdr.Done && sdr.parked && sdr.ID != g.ID && sdr.pending.kind == vsrt.KSend && sdr.pending.obj == sc.obj && c.cap == 0 {
+							ts = append(ts, transition{a: sdr.ID, b: g.ID, altB: i, desc: fmt.Sprintf("%s=>select:%s:ch%d", sdr.Name, g.Name, c.id)})
+						}
+					}
+				}
+			}
+			if len(ts) == n0 && o.hasDefault {
+				ts = append(ts, transition{a: g.ID, b: -1, alt: -1, desc: g.Name + ":select-default"})
 			}
 		case vsrt.KWgWait:
 			if x.wgs[o.obj].cnt <= 0 {
@@ -367,7 +423,10 @@ func (x *Exec) enabled() []transition {
 		if ts[i].b != ts[j].b {
 			return ts[i].b < ts[j].b
 		}
-		return ts[i].alt < ts[j].alt
+		if ts[i].alt != ts[j].alt {
+			return ts[i].alt < ts[j].alt
+		}
+		return ts[i].altB < ts[j].altB
 	})
 	// costs: switching away from a goroutine that could continue is a preemption;
 	// a non-default iteration order is a deviation
@@ -383,7 +442,7 @@ func (x *Exec) enabled() []transition {
 		if runningEnabled && !involvesLast {
 			t.cost = 1
 		}
-		if t.alt > 0 {
+		if t.dev {
 			t.cost = 1
 			if runningEnabled && !involvesLast {
 				t.cost = 2
@@ -414,6 +473,11 @@ func (x *Exec) key() uint64 {
 			h = mix(h, uint64(x.wgs[g.pending.obj].id))
 		case vsrt.KYield, vsrt.KChoice:
 			h = mix(h, strHash(g.pending.tag))
+		case vsrt.KSelect:
+			for _, sc := range g.pending.sel {
+				h = mix(h, uint64(x.chans[sc.obj].id), b2i(sc.send))
+			}
+			h = mix(h, b2i(g.pending.hasDefault))
 		}
 	}
 	cs := make([]*chanModel, 0, len(x.chans))
@@ -458,9 +522,27 @@ func (x *Exec) fire(t transition) {
 		if t.b >= 0 {
 			b := x.gs[t.b]
 			b.nops++
-			b.hist = mix(b.hist, uint64(vsrt.KRecv), uint64(c.id), uint64(a.ID), uint64(a.nops))
+			b.hist = mix(b.hist, uint64(vsrt.KRecv), uint64(c.id), uint64(a.ID), uint64(a.nops), uint64(t.altB+2))
 		} else if !c.closed {
 			c.len++
+		}
+	case vsrt.KSelect:
+		a.hist = mix(a.hist, uint64(o.kind), uint64(t.alt+2))
+		if t.alt >= 0 {
+			sc := o.sel[t.alt]
+			c := x.chans[sc.obj]
+			a.hist = mix(a.hist, uint64(c.id), b2i(sc.send))
+			if sc.send {
+				if t.b >= 0 {
+					b := x.gs[t.b]
+					b.nops++
+					b.hist = mix(b.hist, uint64(vsrt.KRecv), uint64(c.id), uint64(a.ID), uint64(a.nops))
+				} else if !c.closed {
+					c.len++
+				}
+			} else if c.len > 0 {
+				c.len--
+			}
 		}
 	case vsrt.KRecv:
 		c := x.chans[o.obj]
@@ -493,7 +575,7 @@ func (x *Exec) fire(t transition) {
 	x.mu.Unlock()
 	a.wake <- t.alt
 	if t.b >= 0 {
-		x.gs[t.b].wake <- 0
+		x.gs[t.b].wake <- t.altB
 	}
 }
 
@@ -513,11 +595,12 @@ func Install() {
 	vsrt.PreHook = preHook
 	vsrt.GoHook = goHook
 	vsrt.OrderHook = orderHook
+	vsrt.SelectHook = selectHook
 }
 
 // Uninstall restores pass-through mode.
 func Uninstall() {
-	vsrt.PreHook, vsrt.GoHook, vsrt.OrderHook = nil, nil, nil
+	vsrt.PreHook, vsrt.GoHook, vsrt.OrderHook, vsrt.SelectHook = nil, nil, nil, nil
 }
 
 // abortAll lets every parked goroutine of a finished execution unwind and exit,
@@ -535,7 +618,7 @@ func (x *Exec) abortAll() {
 	}
 	x.mu.Unlock()
 	for _, g := range wake {
-		g.wake <- -1
+		g.wake <- abortSignal
 	}
 	deadline := time.Now().Add(5 * time.Second)
 	for {
